@@ -8,17 +8,17 @@ git -C /repo worktree add -q $wt HEAD || exit 2
 meta=$src/meta.json
 demo=$(python3 -c "import json;print(json.load(open('$meta'))['demo_file'])")
 place=$(python3 -c "import json;print(json.load(open('$meta'))['demo_place'])")
-cmd=$(python3 -c "import json,re;print(re.sub(r'/tmp/wt[23456]?-C[0-9]+','.',json.load(open('$meta'))['demo_cmd']))")
+cmd=$(python3 -c "import json,re;print(re.sub(r'/tmp/wt[2-9]?-C[0-9]+','.',json.load(open('$meta'))['demo_cmd']))")
 cleanup() { tag=$(echo "$wt" | md5sum | cut -c1-8); rm -rf /verif/.work/alt-$tag; git -C /repo worktree remove --force $wt; }
 trap cleanup EXIT
 cd $wt
 cp "$src/$demo" "$wt/$place/$demo"
-echo "== demo without patch (expect PASS)"; (eval "$cmd" >/tmp/seed-demo0-$$.log 2>&1; echo "exit $?")
+echo "== demo without patch (expect PASS)"; (eval "$cmd" >/tmp/seed-demo0-${SEEDLOG_TAG:-$$}.log 2>&1; echo "exit $?")
 git apply "$src/patch.diff" 2>/dev/null || patch -p1 -s --no-backup-if-mismatch --fuzz=3 < "$src/patch.diff" || { echo "PATCH DOES NOT APPLY"; exit 3; }
-echo "== demo with patch (expect FAIL)"; (eval "$cmd" >/tmp/seed-demo1-$$.log 2>&1; echo "exit $?")
+echo "== demo with patch (expect FAIL)"; (eval "$cmd" >/tmp/seed-demo1-${SEEDLOG_TAG:-$$}.log 2>&1; echo "exit $?")
 rm -f "$wt/$place/$demo"
 echo "== suite with patch (expect ok)"; go test -vet=off -count=1 ./... 2>&1 | grep -v '^ok' | grep -v 'no test files' | head -5
 for c in "$@"; do
   echo "== check $c quick with patch"
-  (cd /verif && VERIF_REPO=$wt ./run.sh $c quick > /tmp/seed-check-$c-$$.log 2>&1; echo "exit $?"; grep -c '^VIOLATION' /tmp/seed-check-$c-$$.log; grep '^  symptom' /tmp/seed-check-$c-$$.log | sort | uniq -c | sort -rn | head -5; tail -1 /tmp/seed-check-$c-$$.log | cut -c1-300)
+  (cd /verif && VERIF_REPO=$wt ./run.sh $c quick > /tmp/seed-check-$c-${SEEDLOG_TAG:-$$}.log 2>&1; echo "exit $?"; grep -c '^VIOLATION' /tmp/seed-check-$c-${SEEDLOG_TAG:-$$}.log; grep '^  symptom' /tmp/seed-check-$c-${SEEDLOG_TAG:-$$}.log | sort | uniq -c | sort -rn | head -5; tail -1 /tmp/seed-check-$c-${SEEDLOG_TAG:-$$}.log | cut -c1-300)
 done
